@@ -1,5 +1,6 @@
 """C04 -- a compiled construct behaves exactly like the construct it was compiled from."""
 import ast
+import re
 
 from .. import norm as N
 from ..tmpl import TemplateEvaluator, render_variants, emitters, all_holes, Hole, Sub, walk_pieces
@@ -123,7 +124,45 @@ def run(ctx):
         refuses = all(em.not_implemented for em, rs in lst)
         ctx.ob("C04.R0", fi, ok, "every variant of the generated source parses as Python (%d variants)%s" % (n, (": " + why) if why else (" -- emitter always refuses" if refuses else "")), key="parses")
     ctx.extra["programs"] = programs
-    ctx.floor("C04.R0", 70)
+    # every fresh name (built from code.allocateId()) that generated code refers to is defined by a block the same run of the emitter appended
+    nfresh = 0
+    for q, (fi, owner, lst) in sorted(emit_funcs.items()):
+        fresh_locals = {t.id for st in ast.walk(fi.node) if isinstance(st, ast.Assign) and any(isinstance(c, ast.Attribute) and c.attr == "allocateId" for c in ast.walk(st.value))
+                        for t in st.targets if isinstance(t, ast.Name)}
+        missing = set()
+        used_any = False
+        for em, rs in lst:
+            if em.not_implemented:
+                continue
+            for r in rs:
+                fresh = {nm for nm, h in r.holes.items() if (isinstance(h.node, ast.Name) and h.node.id in fresh_locals) or any(isinstance(c, ast.Attribute) and c.attr == "allocateId" for c in ast.walk(h.node))}
+                if not fresh:
+                    continue
+                try:
+                    trees = [ast.parse(b) for b in r.text_blocks] + [ast.parse(r.text_ret or "None", mode="eval")]
+                except SyntaxError:
+                    continue
+                pat = re.compile(r"(?:^|_)(%s)$" % "|".join(sorted(fresh)))
+                defined, used = set(), set()
+                for t in trees:
+                    for n in (t.body if isinstance(t, ast.Module) else []):
+                        if isinstance(n, ast.FunctionDef):
+                            defined.add(n.name)
+                        elif isinstance(n, ast.Assign):
+                            defined |= {x.id for x in n.targets if isinstance(x, ast.Name)}
+                    ids = {id(n.slice) for n in ast.walk(t) if isinstance(n, ast.Subscript)}     # userfunction[<id>]: the id is a key, not a name
+                    for n in ast.walk(t):
+                        if isinstance(n, ast.Name) and isinstance(n.ctx, ast.Load) and pat.search(n.id) and id(n) not in ids:
+                            used.add(n.id)
+                used_any = used_any or bool(used)
+                missing |= used - defined
+        if used_any:
+            nfresh += 1
+            ctx.ob("C04.R0", fi, not missing, "every freshly allocated name the generated code refers to is defined by a block appended in the same emitter run%s" % ((": undefined " + ", ".join(sorted(missing))) if missing else ""), key="fresh names defined")
+    ctx.extra["emitters_with_fresh_names"] = nfresh
+    if nfresh < 18:
+        ctx.error("C04.R0: only %d emitters use freshly allocated names, floor 18" % nfresh)
+    ctx.floor("C04.R0", 88)
 
     # ---------------------------------------------------------------- R1 repr discipline
     n1 = 0
